@@ -2,6 +2,8 @@
  * the pending input (ids = positions); `sort <alg>` / `keys <alg>` sort an exactly sized,
  * freshly malloc'ed pointer array (count 0 -> malloc(0), so ASan sees every stray access)
  * and print the result as key:id pairs / keys. */
+/* container operations take microseconds: a 20 s watchdog per operation */
+#define VH_OP_TIMEOUT 20
 #include "vharness.h"
 #include "muggle/c/dsaa/sort.h"
 
